@@ -130,42 +130,8 @@ def gen_ext(rng, tier, meta):
     return build_ext(rng, meta, xs, ys, xd, fd, xs2, ys2, P, p, x1, x2)
 
 
-def steffen_abc(xs, ys, j):
-    """coefficients a, b, c of piece j as Compute_Steffen_Coefficients forms them (double arithmetic)"""
-    n = len(xs)
-    h = [xs[i + 1] - xs[i] for i in range(n - 1)]
-    sl = [(ys[i + 1] - ys[i]) / h[i] for i in range(n - 1)]
-    sg = lambda v: (v > 0) - (v < 0)
-
-    def dy(i):
-        if i == 0:
-            p = sl[0] * (1.0 + h[0] / (h[0] + h[1])) - sl[1] * h[0] / (h[0] + h[1])
-            return (sg(p) + sg(sl[0])) * min(abs(sl[0]), 0.5 * abs(p))
-        if i == n - 1:
-            p = sl[i - 1] * (1.0 + h[i - 1] / (h[i - 1] + h[i - 2])) - sl[i - 2] * h[i - 1] / (h[i - 1] + h[i - 2])
-            return (sg(p) + sg(sl[i - 1])) * min(abs(sl[i - 1]), 0.5 * abs(p))
-        p = (sl[i - 1] * h[i] + sl[i] * h[i - 1]) / (h[i - 1] + h[i])
-        return (sg(sl[i - 1]) + sg(sl[i])) * min(abs(p) / 2.0, min(abs(sl[i]), abs(sl[i - 1])))
-    d0, d1 = dy(j), dy(j + 1)
-    return (d0 + d1 - 2.0 * sl[j]) / (h[j] * h[j]), (3.0 * sl[j] - 2.0 * d0 - d1) / h[j], d0
-
-
-def stationary_points(xs, ys, j, lo, hi):
-    """abscissae of the stationary points of piece j strictly inside (lo, hi), as Stationary_Values finds them"""
-    a, b, c = steffen_abc(xs, ys, j)
-    A, B, C = 3.0 * a, 2.0 * b, c
-    roots = []
-    if A == 0.0:
-        if B != 0.0:
-            roots.append(-C / B)
-    else:
-        disc = B * B - 4.0 * A * C
-        if disc >= 0.0:
-            q = -0.5 * (B + (1.0 if B >= 0.0 else -1.0) * math.sqrt(disc))
-            roots.append(q / A)
-            if q != 0.0:
-                roots.append(C / q)
-    return [xs[j] + t for t in roots if lo < xs[j] + t < hi and math.isfinite(t)]
+steffen_abc = _T.steffen_abc
+stationary_points = _T.stationary_points
 
 
 def build_ext(rng, meta, xs, ys, xd, fd, xs2, ys2, P, p, x1, x2, fam="ext"):
@@ -287,33 +253,55 @@ def gen_zone(rng, tier, meta):
         rq = "%s %d %s" % (head(xs, ys, -1.0, -1.0), len(ops), " ".join(ops))
         meta[rq] = dict(fam="seq", gen="zone-edge", np=0, p=1.0, n=n, span=0)
         R.append(rq)
-    for it in range(60 if tier == "thorough" else 16):
-        n = rng.randint(3, 6)
-        x0 = rng.choice([0.0, -3.0, rng.uniform(-100, 100)])
-        if it % 2 == 0:   # equal spacing: the edge piece is a parabola (a == 0 exactly), linear branch of Stationary_Values
-            h = rng.choice([1.0, 0.5, 2.0, rng.uniform(0.1, 10)])
-            hs = [h] * (n - 1)
-        else:             # unequal spacing, non-dyadic data: a is a rounding residue != 0, quadratic branch (q/A far away, C/q the turning point)
-            hs = [rng.uniform(0.1, 10) for _ in range(n - 1)]
-        xs = [x0]
-        for h in hs:
-            xs.append(xs[-1] + h)
-        s0 = rng.choice([-1.0, 1.0]) * 10.0 ** rng.uniform(-2, 2)
-        dl = rng.uniform(0.0005, 0.02)
-        ys = [rng.uniform(-5, 5)]
-        ys.append(ys[0] + s0 * hs[0])
-        # boundary slope estimate p0 = s0 (2 h0 + h1)/(h0 + h1) - s1 h0/(h0 + h1) almost zero: s1 ~ s0 (2 h0 + h1)/h0
-        ys.append(ys[1] + s0 * (2 * hs[0] + hs[1]) / hs[0] * (1 - dl) * hs[1])
-        while len(ys) < n:
-            ys.append(ys[-1] + s0 * hs[len(ys) - 1] * rng.uniform(0.5, 3))
-        if rng.random() < 0.5:    # the same at the right end
-            xs = [-(v) for v in reversed(xs)]; ys = list(reversed(ys))
-            x2 = xs[-1] + rng.uniform(0.3, 0.95) * 0.01 * (xs[-1] - xs[-2]); x1 = T.point(rng, xs, rng.randint(0, n - 2))
-        else:
-            x1 = xs[0] - rng.uniform(0.3, 0.95) * 0.01 * (xs[1] - xs[0]); x2 = T.point(rng, xs, rng.randint(0, n - 2))
-        xs = T.fix_increasing(xs)
+    for tb in zone_tables(rng, 60 if tier == "thorough" else 16, 24 if tier == "thorough" else 8):
+        R += zone_cells(rng, meta, tb)
+    return R
+
+
+zone_tables = _T.zone_tables
+
+
+ZONE_CELLS = ("before", "straddle", "behind", "domain")
+
+
+def zone_cells(rng, meta, tb):
+    """limit pairs in every ordering relative to (end knot, stationary abscissa x*, zone edge), either prefactor sign"""
+    xs, ys, side = tb
+    n = len(xs)
+    R = []
+    if side == "L":
+        knot, edge, j = xs[0], xs[0] - 0.0095 * (xs[1] - xs[0]), 0
+        st = stationary_points(xs, ys, j, edge, knot)
+    else:
+        knot, edge, j = xs[-1], xs[-1] + 0.0095 * (xs[-1] - xs[-2]), n - 2
+        st = stationary_points(xs, ys, j, knot, edge)
+    if len(st) != 1 or not (0.1 < abs(st[0] - knot) / abs(edge - knot) < 0.9):
+        # no (single, well separated) turning point in the zone: one generic pair with a limit in the zone
+        inner = T.point(rng, xs, rng.randint(0, n - 2))
+        zl = knot + rng.uniform(0.3, 1.0) * (edge - knot)
         P, p = pref_ops(rng)
-        R.append(build_ext(rng, meta, xs, ys, -1.0, -1.0, xs, ys, P, p, min(x1, x2), max(x1, x2), fam="zone"))
+        return [build_ext(rng, meta, xs, ys, -1.0, -1.0, xs, ys, P, p, min(inner, zl), max(inner, zl), fam="zone")]
+    xstar = st[0]
+    between = lambda u, v, f: u + f * (v - u)
+    for cell in ZONE_CELLS:
+        if cell == "before":      # both between the end knot and x*
+            a, b = between(knot, xstar, rng.uniform(0.1, 0.45)), between(knot, xstar, rng.uniform(0.55, 0.9))
+        elif cell == "straddle":  # x* strictly between the limits, both in the zone
+            a, b = between(knot, xstar, rng.uniform(0.1, 0.9)), between(xstar, edge, rng.uniform(0.1, 0.9))
+        elif cell == "behind":    # both beyond x*
+            a, b = between(xstar, edge, rng.uniform(0.1, 0.45)), between(xstar, edge, rng.uniform(0.55, 0.9))
+        else:                     # one limit inside the domain, the other beyond x*
+            a, b = T.point(rng, xs, rng.randint(0, n - 2)), between(xstar, edge, rng.uniform(0.1, 0.9))
+        x1, x2 = min(a, b), max(a, b)
+        for sign in ("pos", "neg"):
+            c = rng.random()
+            if sign == "pos":
+                P, p = ([], 1.0) if c < 0.3 else (["P %s" % hx(4.0)], 4.0) if c < 0.6 else (["X %s" % hx(2.5)], 2.5)
+            else:
+                P, p = (["P %s" % hx(-3.0)], -3.0) if c < 0.5 else (["X %s" % hx(-0.5)], -0.5) if c < 0.8 else (["P %s" % hx(2.0), "X %s" % hx(-1.5)], -3.0)
+            rq = build_ext(rng, meta, xs, ys, -1.0, -1.0, xs, ys, P, p, x1, x2, fam="zone")
+            meta[rq]["cell"] = (side, cell, sign)
+            R.append(rq)
     return R
 
 
@@ -715,6 +703,10 @@ def oracle(meta, ops, vi, vm, ctx):
                                     "factor %r, unit output %r, got %r" % (p, u, got)))
                     break
         ctx["nontrivial"].add(("oracle.ext", sgn_class(meta["p"]), min(meta["span"], 4), meta["allknots"], nzone > 0, nu > 0))
+        if meta.get("cell"):   # Local_Minimum AND Local_Maximum are both asked in every request of a cell
+            for ext in ("min", "max"):
+                ctx["nontrivial"].add(("zone-cell",) + meta["cell"] + (ext,))
+            bump(ctx, "zone-cell.%s.%s.%s" % meta["cell"])
     elif fam == "ext2":
         gm, gM = vi[np_:np_ + 2]
         S = [v for v, o in zip(vi[np_ + 2:], ops[np_ + 2:]) if o[0] == "I"]
